@@ -6,12 +6,13 @@ import os
 from vlib import *
 
 TRACE_CFG = "BurnRedirectTrace.cfg"
-DEFECTS = ["staking_plain_bank", "gov_plain_bank", "no_feepool_update", "bonded_only", "redirect_all", "bond_denom_only"]
+DEFECTS = ["staking_plain_bank", "gov_plain_bank", "no_feepool_update", "bonded_only", "redirect_all", "bond_denom_only",
+           "gate_send_enabled", "gate_community_tax", "gate_deposit_denoms"]
 SIM_AMT = "25000000000000000007"
 
 MANIFEST_ENTRY = dict(engine="BurnRedirect", design="§4 C14",
-   technique="TLA+ spec BurnRedirect.tla: TLC exhaustive model checking of the redirect equations over sequences of slashes, deposit burns and control burns; TLC-simulated behaviours executed as full ABCI block histories on the real application (downtime through absent votes, double signs through duplicate-vote evidence, gov transactions and block time); every BeginBlock, transaction and EndBlock validated by TLC against the property layer (trace validation)",
-   text="Exhaustive TLC model checking of the design (all sequences of up to 5 events over double-sign and downtime slashes of 2 validators with bonded, unbonding and redelegating stake, proposals vetoed / expired / without quorum / rejected with deposits in 1-2 denominations, and burns by erc20 / liquidvesting / evm) proves on the model that a slash or deposit burn leaves the supply unchanged and moves exactly the destroyed amount into the community pool and the distribution account while other modules' burns reduce the supply, and that each of six mis-wirings of the bank wrapper breaks these equations; the binding to the code is two-way: TLC-generated behaviours and seeded random histories are executed through InitChain/BeginBlock/DeliverTx/EndBlock/Commit of the real app with real slashing, evidence, staking, gov and distribution modules, and TLC checks the equations around every single BeginBlock, transaction and EndBlock, taking the destroyed amount from the staking and gov records (never from the bank).",
+   technique="TLA+ spec BurnRedirect.tla: TLC exhaustive model checking of the redirect equations over sequences of slashes, deposit burns and control burns; TLC-simulated behaviours executed as full ABCI block histories on the real application (downtime through absent votes, double signs through duplicate-vote evidence, gov transactions and block time, parameter changes through passed proposals that carry the modules' authority messages); every BeginBlock, transaction and EndBlock validated by TLC against the property layer (trace validation)",
+   text="Exhaustive TLC model checking of the design (all sequences of up to 5 events over double-sign and downtime slashes of 2 validators with bonded, unbonding and redelegating stake, proposals vetoed / expired / without quorum / rejected with deposits in 1-2 denominations, burns by erc20 / liquidvesting / evm, and one change of a chain parameter: bank send-enabled per denomination and default, community tax 0 / 2 % / 1, the three gov burn switches, the deposit denominations, the erc20 switch) proves on the model that a slash or deposit burn leaves the supply unchanged and moves exactly the destroyed amount into the community pool and the distribution account while other modules' burns reduce the supply, and that each of nine mis-wirings of the bank wrapper (three of them make the redirect depend on a parameter: real burn while sending is disabled, while the community tax is zero, for non-deposit denominations) breaks these equations; the binding to the code is two-way: TLC-generated behaviours and seeded random histories are executed through InitChain/BeginBlock/DeliverTx/EndBlock/Commit of the real app with real slashing, evidence, staking, gov and distribution modules, from default and non-default genesis parameters and across parameter changes executed by gov, and TLC checks the equations around every single BeginBlock, transaction and EndBlock, taking the destroyed amount from the staking and gov records (never from the bank); the property layer never reads the parameters, and the run is vacuous unless slashes and deposit burns were checked while sending was disabled, with community tax 0 and 1, with erc20 disabled and for non-deposit denominations.",
    note="Bounded by the constants in specs/BurnRedirect_*.cfg and by the sampled histories; the destroyed amount of a slash is the loss of validator tokens plus unbonding-entry balances between the projections before and after BeginBlock, that of a deposit burn is the deposit records of the proposals the gov queues and gov's own Tally (run on a discarded cache context) say end with a burn; fee allocation, reward pay-outs reported by distribution events and the coinomics mint of the same ABCI call are subtracted; CometBFT itself is not run (votes and evidence are fed through ABCI); TLC, the Json community module and the BigNum override are trusted.")
 
 
@@ -28,13 +29,29 @@ def script_cfg(seed):
             "burnQuorum": False, "unbondingSecs": 100000, "slashDouble": "0.05", "slashDowntime": "0.01"}
 
 
+# configurations the behaviours of the model start from on the chain (the model's SetParam events
+# change them further): the default one and four that a redirect must not notice
+GENESIS_PARAMS = [None, None, None, None,
+                  {"sendDefaultOff": True},
+                  {"communityTax": "0", "erc20Off": True},
+                  {"send": {"aISLM": False}, "communityTax": "1"},
+                  {"sendDefaultOff": True, "send": {"utest": True}, "evmHookOff": True, "withdrawAddrOff": True}]
+
+
 def to_scripts(behaviours, seed):
     """the model starts with delegator a1 holding 4 Amt at v1 and at v2"""
     four = str(4 * int(SIM_AMT))
     prelude = [{"op": "delegate", "del": "a1", "val": "v1", "amt": four},
                {"op": "delegate", "del": "a1", "val": "v2", "amt": four},
                {"op": "blocks", "n": 1}]
-    return [{"cfg": script_cfg(seed * 1000 + i), "ops": prelude + ops} for i, ops in enumerate(behaviours)]
+    out = []
+    for i, ops in enumerate(behaviours):
+        cfg = script_cfg(seed * 1000 + i)
+        pr = GENESIS_PARAMS[i % len(GENESIS_PARAMS)]
+        if pr:
+            cfg["params"] = pr
+        out.append({"cfg": cfg, "ops": prelude + ops})
+    return out
 
 
 def run_batch(wd, name, scripts, nrandom, seed):
@@ -58,7 +75,13 @@ def run_batch(wd, name, scripts, nrandom, seed):
 
 FLOORS = ["hit:doubleSign:bonded", "hit:doubleSign:unbonding", "hit:doubleSign:redelegating",
           "hit:downtime:bonded", "hit:downtime:unbonding", "hit:downtime:redelegating",
-          "depburn:veto", "depburn:expired", "depburn:2denoms", "control:liquidvesting", "control:evm"]
+          "depburn:veto", "depburn:expired", "depburn:2denoms", "control:liquidvesting", "control:evm",
+          "setparam:applied"]
+# slashes / deposit burns that TLC checked while the chain was in a non-default configuration
+# (BurnRedirect!EnvClasses evaluated on the logged parameters before the call)
+ENV_FLOORS = {"paramchange": 5, "slash/sendOff": 3, "deposit-burn/sendOff": 2, "slash/tax0": 1, "slash/tax1": 1,
+              "deposit-burn/tax0": 1, "deposit-burn/tax1": 1, "slash/erc20Off": 1, "deposit-burn/erc20Off": 1,
+              "deposit-burn/nonDepositDenom": 1}
 
 
 def run(c):
@@ -69,8 +92,12 @@ def run(c):
     # 1. the design: P on the intended machine (exhaustive), and each modelled mis-wiring of the
     #    bank wrapper must break P (non-vacuity of the step relation)
     cfg = "BurnRedirect_intended.cfg" if quick else "BurnRedirect_intended_thorough.cfg"
-    r = tlc_exhaustive(wd, "BurnRedirect.tla", cfg, workers=4, timeout=3000)
+    r = tlc_exhaustive(wd, "BurnRedirect.tla", cfg, workers=4 if quick else 6, timeout=3000)
     c.add_tlc(cfg, r)
+    if not quick:
+        # the deeper configuration has no parameter changes; this one has up to two of them in behaviours of length 6
+        r = tlc_exhaustive(wd, "BurnRedirect.tla", "BurnRedirect_intended_params_thorough.cfg", workers=6, timeout=3000)
+        c.add_tlc("BurnRedirect_intended_params_thorough.cfg", r)
     r = tlc_exhaustive(wd, "BurnRedirect.tla", "BurnRedirect_intended_refund.cfg", workers=4, timeout=1500)
     c.add_tlc("BurnRedirect_intended_refund.cfg", r)
     for d in DEFECTS:
@@ -122,6 +149,9 @@ def run(c):
     missing = [k for k in FLOORS if stats.get(k, 0) < 1]
     if missing:
         raise Infra("vacuous run: nothing exercised for %s" % ", ".join(missing))
+    thin = ["%s=%d" % (k, checked.get(k, 0)) for k, n in sorted(ENV_FLOORS.items()) if checked.get(k, 0) < n]
+    if thin:
+        raise Infra("vacuous run: too few events checked under changed parameters: %s" % ", ".join(thin))
     if checked.get("slash", 0) < 10 or checked.get("deposit-burn", 0) < 5 or checked.get("control-burn", 0) < 5:
         raise Infra("vacuous run: too few checked events %s" % checked)
 
@@ -141,11 +171,18 @@ def run(c):
             if kind and kind not in seen:
                 seen.add(kind)
                 p = o["post"]
-                c.samples.append({"ev": o["ev"], "args": {k: v for k, v in o["args"].items() if k in ("h", "k", "module", "burn", "evidence", "absent")},
+                c.samples.append({"ev": o["ev"], "env": {k: v for k, v in p["env"].items() if k in ("sendDefault", "send", "tax", "minDep", "erc20")},
+                                  "args": {k: v for k, v in o["args"].items() if k in ("h", "k", "module", "burn", "evidence", "absent")},
                                   "rep": o["rep"], "post_supply": p["supply"], "post_community": p["community"],
                                   "post_distrBal": p["distrBal"], "post_pools": [p["bonded"], p["notBonded"]]})
 
     # 4. verdict: every signature is reproduced alone from its recorded scenario
+    under = {}
+    for v in viols:
+        under.setdefault(sig_of(v), set()).add(v.get("under", "-"))
+    if under:
+        # diagnostic: the configuration classes (BurnRedirect!EnvClasses) every occurrence of a signature was seen under
+        c.extra["violations_under_configuration"] = {k: sorted(u) for k, u in sorted(under.items())}
     first = {}
     for v in sorted(viols, key=lambda v: (v["dir"], v["line"])):
         first.setdefault(sig_of(v), v)
@@ -169,6 +206,7 @@ def run(c):
         "unrelated flows of the same ABCI call are subtracted: fees leaving the fee collector (distribution AllocateTokens), rewards paid out as reported by distribution withdraw_rewards/withdraw_commission events (a redelegation slash unbonds at the destination validator, which pays out that delegation's rewards), and the coinomics mint (fee collector increase during EndBlock)",
         "the state before a BeginBlock is the projection after the previous EndBlock (Commit changes nothing); projections read the real stores through bank, staking, distribution and gov keepers",
         "votes, absent validators and duplicate-vote evidence are fed through ABCI RequestBeginBlock to the real slashing and evidence modules; CometBFT is not run",
+        "the configuration (env) of a line is read from the parameter stores of bank, distribution, gov, erc20 and slashing after the call; parameter changes are made by proposals with the module's authority message and the minimum deposit in force, voted yes by all validators and executed by gov's EndBlock (the end of the voting period also ends the other proposals that are due); the model bounds the number of parameter changes per behaviour (MaxParamChanges)",
         "exhaustive model checking is bounded by the constants in specs/BurnRedirect_*.cfg",
     ]
 
